@@ -2,6 +2,7 @@ import Exetera.Props.C04
 import Exetera.Lemmas.GenKernelsMapValid
 import Exetera.Lemmas.GenKernelsMapValidIndexed
 import Exetera.Lemmas.GenKernelsSafeMap
+import Exetera.Lemmas.GenKernelsSafeMapIndexed
 import Exetera.Lemmas.MapValidIndexed
 import Exetera.Lemmas.GenKernelsExtents
 import Exetera.Lemmas.GenKernelsSubchunk
@@ -183,5 +184,47 @@ theorem gen_next_map_subchunk_eq (m : List Int) (sm : Nat) (inv : Int) (cs : Nat
 /-- the NC02a shape: the sub-chunk ends where the map steps back -/
 example : next_map_subchunk.run [0, 1, 2, 0, 1, 2] 0 4611686018427387904 1000 6 = .ok 3 := rfl
 example : next_map_subchunk.run [-1, -1, 5, 6, 9] 0 (-1) 2 5 = .ok 4 := rfl
+
+/-! ## safe_map_indexed_values (KT4B: two passes, optional ARRAY parameter `empty_value`, slices assigned to slices) -/
+
+/-- transfer: every `.ok` run of the model `safeMapIndexedValues` is a run of the TRANSLATED `safe_map_indexed_values` with the
+    same (offsets, bytes), provided that where the filter is set the row number is not negative (the model wraps a negative
+    subscript, the translation rejects it) and the row's two offsets lie in order inside `data_values` (the model appends the
+    slice whatever its length; the code assigns it to exactly `delta` slots of `v_result` — numpy's size check) -/
+theorem gen_safe_map_indexed_values_ok (indices values m : List Int) (filt : List Bool) (e : Option (List Int))
+    (r : List Int × List Int)
+    (hpos : ∀ (i : Nat) (k : Int), filt[i]? = some true → m[i]? = some k → 0 ≤ k)
+    (hwf : ∀ (i : Nat) (k a b : Int), filt[i]? = some true → m[i]? = some k → indices[k.toNat]? = some a →
+      indices[k.toNat + 1]? = some b → 0 ≤ a ∧ a ≤ b ∧ b ≤ values.length)
+    (h : safeMapIndexedValues indices values m filt (e.getD []) = .ok r) :
+    safe_map_indexed_values.run indices values m filt e = .ok r :=
+  safe_map_indexed_values_ok indices values m filt e r hpos hwf h
+
+/-- the statement of `C04.safe_map_indexed_values_eq` for the translated kernel itself: on a well-formed indexed string column
+    (`IndexedOK`) and an in-range map, with the filter "entry is not the marker" and no `empty_value` (how `dataframe.merge` and
+    `session.merge_*` call it), it returns normally (no subscript out of range or negative, every slice assignment of matching
+    size) the stored form of the specified column of entries -/
+theorem gen_safe_map_indexed_values_eq (indices values m : List Int) (inv : Int) (hok : IndexedOK indices values)
+    (hr : InRange (entries indices values).length m inv) :
+    ∃ out, safe_map_indexed_values.run indices values m (m.map (fun k => k != inv)) none = .ok out ∧
+      mapIndexedSpec indices values inv m = some out := by
+  obtain ⟨out, h1, h2⟩ := C04.safe_map_indexed_values_eq indices values m inv hok hr
+  have hw := winOK_of_indexedOK indices values hok
+  refine ⟨out, safe_map_indexed_values_ok indices values m _ none out ?_ ?_ h1, h2⟩
+  · intro i k hf hm
+    simp only [List.getElem?_map, hm, Option.map_some, Option.some.injEq] at hf
+    exact (hr i k hm (by simpa using hf)).1
+  · intro i k a b _ _ ga gb
+    exact ⟨hw.nonneg _ _ ga, hw.mono _ _ _ _ (Nat.le_succ _) ga gb, hw.le_len _ _ gb⟩
+
+example : safe_map_indexed_values.run [0, 1, 3] [97, 98, 99] [1, -1, 0] ([1, -1, 0].map (fun k => k != -1)) none
+    = .ok ([0, 2, 2, 3], [98, 99, 97]) := by rfl
+example : safe_map_indexed_values.run [0, 1, 3] [97, 98, 99] [1, -1, 0] [true, false, true] (some [120, 121])
+    = .ok ([0, 2, 4, 5], [98, 99, 120, 121, 97]) := by rfl
+example : IndexedOK ([0, 1, 3] : List Int) ([97, 98, 99] : List Int) := by simp [IndexedOK]
+/-- offsets beyond `data_values`: numpy's size check, an error of the translation too (the hand model appends the short slice —
+    the reason for the well-formedness hypothesis of the transfer) -/
+example : safe_map_indexed_values.run [0, 1, 5] [97, 98, 99] [1] [true] none
+    = .error (.valueError "could not broadcast input array") := by rfl
 
 end Exetera.Props.C04Gen
